@@ -42,6 +42,9 @@ func OLVM(signer *harness.Account, from keys.Address, to *keys.Address, nonce ui
 	if memo == "" {
 		memo = strconv.FormatUint(nonce, 10)
 	}
+	if data == nil {
+		data = []byte{} // the only accepted spelling of an empty data field is "" (not null)
+	}
 	msg := &olvm.Transaction{Nonce: nonce, From: from, To: to, Amount: amount, Data: data, ChainID: chainID}
 	sg := orDefault(signers, signer)
 	t := harness.NewTx(action.OLVM, msg, memo, sg...)
@@ -147,6 +150,22 @@ var StoreRuntime = []byte{
 
 // KillRuntime: selfdestruct(caller).
 var KillRuntime = []byte{0x33, 0xff}
+
+// SweepRuntime: staticcall the precompiles 2, 3 and 4 with empty input, then selfdestruct in favour of an address
+// nobody has ever used. With a contract that holds nothing, ONE transaction ends with five accounts that are
+// touched and empty (three precompiles, the contract, the beneficiary): all of them are removed at the end of the
+// transaction, all with keys the state tree has not seen before.
+var SweepBeneficiary = ethcmn.HexToAddress("0x00000000000000000000000000000000dead0001")
+
+var SweepRuntime = func() []byte {
+	var code []byte
+	for _, p := range []byte{2, 3, 4} {
+		code = append(code, 0x60, 0x00, 0x60, 0x00, 0x60, 0x00, 0x60, 0x00, 0x60, p, 0x5a, 0xfa, 0x50) // staticcall(gas, p, 0,0,0,0); pop
+	}
+	code = append(code, 0x73)
+	code = append(code, SweepBeneficiary.Bytes()...)
+	return append(code, 0xff) // selfdestruct(beneficiary)
+}()
 
 // InitCode returns init code that sets storage[1] = 42 and deploys `runtime`.
 func InitCode(runtime []byte) []byte {
